@@ -764,6 +764,30 @@ func checkC09(c *Ctx) {
 			}
 		}
 		if nclock == 0 {
+			// the stamp may be taken by a small helper of the package that marks an entry (tombstone(session) reading
+			// the clock or a stamp function): it runs where the mutator calls it
+			for _, g := range clockFns {
+				for _, hc := range core.CallsIn(g) {
+					h := hc.Static
+					if h == nil || h.Package() != d.pkg || d.mutatorOf(h) != nil || len(h.Blocks) == 0 {
+						continue
+					}
+					for _, cl := range core.CallsIn(h) {
+						if isClockCall(cl) || (cl.Static != nil && sf.ok[cl.Static]) {
+							nclock++
+							at := hc.Instr
+							if via != nil && at.Parent() == f && !exclHeld(at) {
+								at = via.Instr
+							}
+							if !exclHeld(at) {
+								bad = "the timestamp is read before the state lock is taken: another writer can apply a later-stamped change first and then be overwritten locally by this older-stamped one"
+							}
+						}
+					}
+				}
+			}
+		}
+		if nclock == 0 {
 			bad = "the mutator never reads the clock"
 		}
 		ru6.Check(bad == "", key, c.where(f, f), "clock() read with the state lock held exclusively", bad)
